@@ -1,6 +1,7 @@
 package props
 
 import (
+	"verifh/ref/rpar2"
 	"bytes"
 	"fmt"
 	"io/ioutil"
@@ -27,6 +28,7 @@ type p2Case struct {
 	Extra       []string      `json:"extra,omitempty"`  // unrelated files to drop beside the set (C02)
 	FailWrite   int           `json:"failwrite,omitempty"` // C02: the k-th write during Repair fails without effect (0 = none)
 	AutoPrune   bool          `json:"autoprune,omitempty"` // C16: delete recovery files so that exactly as many blocks remain as slices are unfindable
+	RecDamaged  bool          `json:"recdamaged,omitempty"` // C03: a recovery file was damaged (not as Create wrote it): Verify may refuse with an error, but a verdict must count exactly the blocks that are still intact
 	DiskTwin    bool          `json:"disktwin,omitempty"`  // additionally run the same directory through the exported API on a real directory and require the same observations
 }
 
@@ -175,8 +177,27 @@ func runP2(c *p2Case, r *core.Rec, cl p2Clauses) *p2Run {
 		}
 	}
 
+	if cl.VerifyTruth && c.RecDamaged {
+		// the truth about recovery blocks is what a reader that resynchronises on the packet magic finds intact
+		ex := map[uint32]bool{}
+		for _, p := range s.RecFiles {
+			if b, ok := fs.Get(p); ok {
+				for e := range rpar2.LooseRecovery(b, s.Ref.SetID, s.Cfg.Slice) {
+					ex[e] = true
+				}
+			}
+		}
+		if b, ok := fs.Get(s.Index); ok {
+			for e := range rpar2.LooseRecovery(b, s.Ref.SetID, s.Cfg.Slice) {
+				ex[e] = true
+			}
+		}
+		t.N = len(ex)
+	}
 	if cl.VerifyTruth && o.VerifyPanic == nil {
-		if o.VerifyErr != nil {
+		if o.VerifyErr != nil && c.RecDamaged {
+			r.Count("verify_refused_on_damaged_recovery_file", 1)
+		} else if o.VerifyErr != nil {
 			r.Violatef("verify-error-on-valid-set:"+errClass(o.VerifyErr), "index and surviving recovery files are as written by Create, but Verify returned: %v", o.VerifyErr)
 		} else {
 			sc := o.Counts
